@@ -231,6 +231,13 @@ public:
 
                 break;
             }
+
+            default:
+            {
+                // (a converting read is not filtered by is_allowed: it returned without decoding anything)
+                io_error( "Unsupported bits per pixel in BMP file." );
+                break;
+            }
         }
     }
 
